@@ -106,6 +106,119 @@ theorem skipUnchecked_unsafe :
   refine ⟨⟨by decide, by decide⟩, by decide, by decide, ?_⟩
   unfold readInBounds skipUnchecked; decide
 
+/-! ### the complete verdict of a parse: refused exactly when the bytes do not suffice -/
+
+def Step.size : Step → Nat
+  | .take n => n
+  | .skip bs => bs
+
+def need (steps : List Step) : Nat := (steps.map Step.size).sum
+
+theorem skip_refuses_iff (c : Cur) (bs : Nat) (hs : Safe c) (hb : c.size < 2147483648) :
+    skip c bs = .insufficient ↔ c.len - c.pos < bs := by
+  obtain ⟨h0, h1⟩ := hs
+  unfold skip
+  rw [asU32_of_nonneg c.size h0 (by omega)]
+  by_cases hlt : c.size < 0 ∨ c.size.toNat < bs
+  · simp [hlt]; omega
+  · simp [hlt]; omega
+
+theorem skip_pos (c c' : Cur) (bs : Nat) (h : skip c bs = .ok c') : c'.pos = c.pos + bs ∧ c'.len = c.len := by
+  unfold skip at h
+  by_cases hlt : c.size < 0 ∨ asU32 c.size < bs
+  · simp [hlt] at h
+  · simp only [hlt, if_false, Res.ok.injEq] at h; subst h; exact ⟨rfl, rfl⟩
+
+/-- one step, uniformly: refused iff its size exceeds the real remainder; otherwise the cursor advances by it -/
+theorem step_verdict (c : Cur) (st : Step) (hs : Safe c) (hb : c.size < 2147483648) :
+    (run c [st] = .insufficient ↔ c.len - c.pos < st.size) ∧
+    (∀ c', run c [st] = .ok c' → c'.pos = c.pos + st.size ∧ c'.len = c.len ∧ Safe c' ∧ c'.size ≤ c.size) := by
+  cases st with
+  | take n =>
+    refine ⟨?_, ?_⟩
+    · show _ ↔ c.len - c.pos < n
+      rw [← take_refuses_iff c n hs hb]
+      simp only [run]; cases take c n <;> simp
+    · intro c' h
+      simp only [run] at h
+      cases ht : take c n with
+      | insufficient => simp [ht] at h
+      | ok c1 =>
+        simp only [ht, Res.ok.injEq] at h; subst h
+        have := take_safe c n hs hb c1 ht
+        exact ⟨this.2.2.1, this.2.2.2, this.1, size_le_of_take c c1 n hs hb ht⟩
+  | skip bs =>
+    refine ⟨?_, ?_⟩
+    · show _ ↔ c.len - c.pos < bs
+      rw [← skip_refuses_iff c bs hs hb]
+      simp only [run]; cases skip c bs <;> simp
+    · intro c' h
+      simp only [run] at h
+      cases ht : skip c bs with
+      | insufficient => simp [ht] at h
+      | ok c1 =>
+        simp only [ht, Res.ok.injEq] at h; subst h
+        have := skip_pos c c1 bs ht
+        exact ⟨this.1, this.2, (skip_safe c bs hs hb c1 ht).1, size_le_of_skip c c1 bs ht⟩
+
+theorem run_cons (c : Cur) (st : Step) (rest : List Step) :
+    run c (st :: rest) = match run c [st] with | .ok c' => run c' rest | .insufficient => .insufficient := by
+  cases st <;> simp only [run] <;> split <;> simp_all
+
+/-- **the verdict of a whole parse, for every byte string**: a sequence of reads and skips (with sizes taken from
+    the data, hence arbitrary) is accepted exactly when the buffer holds at least the bytes the steps need, and then
+    the cursor has advanced by exactly that many bytes and is still inside the buffer -/
+theorem run_verdict (steps : List Step) : ∀ (c : Cur), Safe c → c.size < 2147483648 →
+    (run c steps = .insufficient ↔ c.len - c.pos < need steps) ∧
+    (∀ c', run c steps = .ok c' → c'.pos = c.pos + need steps ∧ c'.len = c.len ∧ c'.pos ≤ c'.len) := by
+  induction steps with
+  | nil =>
+    intro c hs _
+    refine ⟨by simp [run, need], ?_⟩
+    intro c' h
+    simp only [run, Res.ok.injEq] at h; subst h
+    have := hs.2
+    exact ⟨by simp [need], rfl, by omega⟩
+  | cons st rest ih =>
+    intro c hs hb
+    obtain ⟨hv1, hv2⟩ := step_verdict c st hs hb
+    rw [run_cons]
+    have hneed : need (st :: rest) = st.size + need rest := by simp [need]
+    cases h1 : run c [st] with
+    | insufficient =>
+      have := hv1.mp h1
+      refine ⟨⟨fun _ => by omega, fun _ => rfl⟩, ?_⟩
+      intro c' h; simp at h
+    | ok c1 =>
+      obtain ⟨hp, hl, hsafe, hsz⟩ := hv2 c1 h1
+      obtain ⟨i1, i2⟩ := ih c1 hsafe (by omega)
+      have hnot : ¬ (c.len - c.pos < st.size) := fun hh => by have := hv1.mpr hh; rw [h1] at this; cases this
+      simp only
+      refine ⟨?_, ?_⟩
+      · rw [i1, hp, hl, hneed]; omega
+      · intro c' h
+        obtain ⟨j1, j2, j3⟩ := i2 c' h
+        exact ⟨by rw [j1, hp, hneed]; omega, by rw [j2, hl], j3⟩
+
+/-- a parse never both accepts and runs short, and it always gives a verdict (totality is by construction: `run`
+    is structurally recursive, there is no input on which it does not return) -/
+theorem run_accepts_iff (steps : List Step) (c : Cur) (hs : Safe c) (hb : c.size < 2147483648) :
+    (∃ c', run c steps = .ok c') ↔ need steps ≤ c.len - c.pos := by
+  have h := (run_verdict steps c hs hb).1
+  cases hr : run c steps with
+  | insufficient =>
+    rw [hr] at h; simp at h
+    constructor
+    · intro hh; obtain ⟨_, h'⟩ := hh; cases h'
+    · intro hh; omega
+  | ok c1 =>
+    rw [hr] at h
+    have : ¬ (c.len - c.pos < need steps) := fun hh => by have := h.mpr hh; cases this
+    exact ⟨fun _ => by omega, fun _ => ⟨c1, rfl⟩⟩
+
+example : run { pos := 0, size := 10, len := 10 } [.take 2, .skip 4, .take 4] = .ok { pos := 10, size := 0, len := 10 } := by decide
+example : run { pos := 0, size := 10, len := 10 } [.take 2, .skip 0xffff, .take 4] = .insufficient := by decide
+
 section Header
 open TpmVerif.Model.Blob
 /-! ### The outermost header of a blob -/
